@@ -28,9 +28,10 @@ class Trace:
     `pv.get_partial_fluxes_from_permeate_composition`, and counts calls of the module-level
     `get_partial_pressures` used by the solver (a second, refactoring-robust evaluation counter)."""
 
-    def __init__(self, pv, cap=200000, keep=True):
+    def __init__(self, pv, cap=200000, keep=True, total_cap=None):
         self.pv = pv
         self.cap = cap
+        self.total_cap = total_cap  # bound on ALL evaluations made while the trace is installed (model-level termination)
         self.keep = keep
         self.evals = []  # list of (y, (j1, j2))
         self.count = 0
@@ -39,6 +40,7 @@ class Trace:
         self.calls = 0  # top-level solver calls (calculate_partial_fluxes) seen
         self.call_start = 0  # value of count when the current solver call started
         self.per_call = []  # evaluations used by each finished solver call
+        self.total_exceeded = False
         self._installed = False
 
     def __enter__(self):
@@ -63,6 +65,9 @@ class Trace:
             trace.count += 1
             if trace.count - trace.call_start > trace.cap:
                 raise EvaluationCap(trace.count - trace.call_start)
+            if trace.total_cap is not None and trace.count > trace.total_cap:
+                trace.total_exceeded = True
+                raise EvaluationCap(trace.count)
             out = trace._orig_method(*args, **kwargs)
             if trace.keep:
                 pc = kwargs.get("permeate_composition", args[2] if len(args) > 2 else None)
